@@ -271,6 +271,17 @@ def run_impl(cfg: dict, workdir: str) -> dict:
                 if f.read(ent["length"]) != expect[key]["bytes"]:
                     ok_ranges = False
     obs["file_bytes_ok"] = ok_ranges
+    # small data files: keep the bytes and the (offset, bytes) jobs, to validate the file-image model
+    images = []
+    if cfg.get("backend", "raw") == "raw":
+        for loc, size in present.items():
+            if size <= 600:
+                with open(os.path.join(outdir, loc), "rb") as f:
+                    content = f.read()
+                jobs = [[ent["offset"], expect[key]["bytes"].hex()] for key in obs["loaded_order"]
+                        for ent in [rb[key]] if ent["external"] and ent["location"] == loc]
+                images.append({"file": loc, "hex": content.hex(), "jobs": jobs})
+    obs["images"] = images
     obs["expect"] = {n: {"dtype": e["dtype"], "shape": e["shape"], "nbytes": e["nbytes"], "kind": e["kind"]}
                      for n, e in expect.items()}
     return obs
@@ -388,6 +399,31 @@ def correspondence_st(ck, cases) -> list[int]:
         "  list_eqb (list_eqb Z.eqb) (match ext with [] => [] | _ => st_shard (fun x => x) ext ms end) groups.\n"
         "Eval vm_compute in (failing agree cases).\n")
     return ck.coq_failing(text, "cases_st")
+
+
+def correspondence_image(ck, cases) -> list[dict]:
+    """The bytes of (small) written data files equal Model.write_all [] jobs — ties write_at/write_all
+    (zero-filled holes, seek+write) to the real files."""
+    rows = []
+    for cfg, obs in cases:
+        for im in obs.get("images", []):
+            rows.append((cfg, im))
+    rows = rows[:150]
+    if not rows:
+        return []
+    def bl(h):
+        return clist(cZ(b) for b in bytes.fromhex(h))
+    terms = ["(" + clist(cpair(common.cnat(o), bl(h)) for o, h in im["jobs"]) + ", " + bl(im["hex"]) + ")"
+             for _, im in rows]
+    text = CASE_HEADER + (
+        "Definition cases : list (list (nat * list byte) * list byte) :=\n  " + clist(terms) + ".\n"
+        "Definition agree (c : list (nat * list byte) * list byte) : bool :=\n"
+        "  list_eqb Z.eqb (write_all [] (fst c)) (snd c).\n"
+        "Eval vm_compute in (failing agree cases).\n")
+    bad = ck.coq_failing(text, "cases_image")
+    ck.count(len(rows))
+    ck.hist("function_grid", "file_image", len(rows))
+    return [{"config": rows[i][0], "image": rows[i][1]} for i in bad]
 
 
 def correspondence_align(ck) -> list[dict]:
@@ -623,6 +659,11 @@ def run(ck) -> None:
         cfg, obs = st_cases[i]
         ck.broken("correspondence:st_predict", json.dumps({"config": cfg, "sizes": obs["sizes"],
                                                            "impl_ranges": obs["ranges_by_file"]}, default=str))
+    try:
+        for m in correspondence_image(ck, cases)[:3]:
+            ck.broken("correspondence:file_image", json.dumps(m, default=str)[:3000])
+    except RuntimeError as e:
+        ck.broken("correspondence:file_image", str(e))
     try:
         mism = correspondence(ck, cases) if cases else []
     except RuntimeError as e:
